@@ -8,7 +8,7 @@ from .. import observe as Ob
 from ..core import HarnessError, Outcome, exc_kind
 from . import _rw, c01
 
-FUZZ = {"quick": 0, "thorough": 6000}   # libFuzzer -runs per shard (slow target)
+FUZZ = {"quick": 0, "thorough": 3000}   # libFuzzer -runs per shard (slow target)
 ID = "C09"
 TECHNIQUE = ("property-based differential testing (Hypothesis): one apply() of all modifications vs one RewritingContext "
              "per modification in address order, compared through a UUID-free canonical dump; plus in-situ model checks "
